@@ -1,3 +1,5 @@
 import HC.Prelude
 import HC.Pure.Middleware
+import HC.Pure.Config
 import HC.Props.C20
+import HC.Props.C19
